@@ -14,23 +14,25 @@
 (*               return err   (cancel precedes the release of the slot)    *)
 (*   visit(n)    ready(n) [mu] ; enter(n) [mu] ; eg.Go(worker n) (blocks   *)
 (*               while the errgroup has limit+1 goroutines)                *)
+(*   caller      may cancel the context it passed in, at any moment (when   *)
+(*               the configuration says so): an action of the environment  *)
 (***************************************************************************)
 EXTENDS Naturals, Sequences, FiniteSets, TLC
 
-VARIABLES nn, deps, inverse, limit, after, fails,   \* configuration (fixed after Init / Reset)
+VARIABLES nn, deps, inverse, limit, after, fails, ext,   \* configuration (fixed after Init / Reset); ext: the caller may cancel
           status,     \* [node -> "absent" | "entered" | "visited"]   (t.status under t.mu)
           chan,       \* nodeCh, FIFO, capacity nn
           expect,     \* coordinator's countdown
           sem,        \* goroutines currently in the errgroup (coordinator included)
-          cancelled,  \* errgroup context cancelled (first visitor error)
-          egErr,      \* node whose error the errgroup kept (0 = none)
+          cancelled,  \* errgroup context cancelled (first error of a worker, or the caller)
+          egErr,      \* node whose error the errgroup kept (0 = none, CtxErr = the context's error)
           pcM, mTodo, mCur,      \* main
           pcC, cTodo, cCur,      \* coordinator
           pcW,        \* [node -> "none"|"start"|"visiting"|"after"|"send"|"exit"|"gone"]
           visits,     \* [node -> number of visitor invocations]
           ret         \* "pending" | "nil" | "err"
 
-cfgv  == <<nn, deps, inverse, limit, after, fails>>
+cfgv  == <<nn, deps, inverse, limit, after, fails, ext>>
 mainv == <<pcM, mTodo, mCur>>
 cordv == <<pcC, cTodo, cCur>>
 vars  == <<cfgv, status, chan, expect, sem, cancelled, egErr, mainv, cordv, pcW, visits, ret>>
@@ -50,6 +52,7 @@ ExtremitiesOf(N, d, inv) ==
 \* t.skip: roots given, n is not a root and no root is among n's (transitive) dependencies
 Skip(n) == after # {} /\ n \notin after /\ after \cap Desc(n) = {}
 
+CtxErr == nn + 1                                      \* egErr value for "the context was cancelled"
 Cap == IF limit = 0 THEN nn + 2 ELSE limit + 1       \* eg.SetLimit(maxConcurrency + 1)
 Ready(n) == \A d \in Waits(n) : status[d] = "visited"
 
@@ -57,7 +60,7 @@ Ready(n) == \A d \in Waits(n) : status[d] = "visited"
 \* c = [n, deps (function 1..n -> SUBSET 1..n), inverse, limit, after, fails]
 StartsAs(c) ==
   /\ nn = c.n /\ deps = c.deps /\ inverse = c.inverse /\ limit = c.limit
-  /\ after = c.after /\ fails = c.fails
+  /\ after = c.after /\ fails = c.fails /\ ext = c.ext
   /\ status = [i \in 1..c.n |-> "absent"]
   /\ chan = <<>> /\ expect = c.n
   /\ sem = 1                                   \* the coordinator is started first
@@ -71,7 +74,7 @@ StartsAs(c) ==
 \* the same, as the effect of an action (used by trace specifications that replay several executions)
 RestartsAs(c) ==
   /\ nn' = c.n /\ deps' = c.deps /\ inverse' = c.inverse /\ limit' = c.limit
-  /\ after' = c.after /\ fails' = c.fails
+  /\ after' = c.after /\ fails' = c.fails /\ ext' = c.ext
   /\ status' = [i \in 1..c.n |-> "absent"]
   /\ chan' = <<>> /\ expect' = c.n
   /\ sem' = 1
@@ -166,13 +169,21 @@ WExit(n) == /\ pcW[n] = "exit"                          \* goroutine returns: sl
             /\ IF n \in fails /\ visits[n] = 1                  \* its visitor ran and returned an error
                  THEN /\ cancelled' = TRUE
                       /\ egErr' = IF egErr = 0 THEN n ELSE egErr
+                 ELSE IF ~Skip(n) /\ visits[n] = 0                 \* it found the context cancelled and returned ctx.Err()
+                 THEN /\ egErr' = IF egErr = 0 THEN CtxErr ELSE egErr
+                      /\ UNCHANGED cancelled
                  ELSE UNCHANGED <<cancelled, egErr>>
             /\ UNCHANGED <<cfgv, status, chan, expect, mainv, cordv, visits, ret>>
+
+\* ---------------------------------------------------------------- the caller (environment)
+CallerCancel == /\ ext /\ pcM # "returned"                      \* (cancelling an already cancelled context changes nothing)
+                /\ cancelled' = TRUE
+                /\ UNCHANGED <<cfgv, status, chan, expect, sem, egErr, mainv, cordv, pcW, visits, ret>>
 
 MainNext  == MPick \/ MReady \/ MEnter \/ MSpawn \/ MGo \/ MSpawned \/ MWait
 CoordNext == CRecv \/ CDone \/ CPick \/ CReady \/ CEnter \/ CSpawn \/ CGo \/ CSpawned
 WorkNext  == \E n \in Nodes : WStart(n) \/ WReturn(n) \/ WDone(n) \/ WSend(n) \/ WExit(n)
-Next == MainNext \/ CoordNext \/ WorkNext
+Next == MainNext \/ CoordNext \/ WorkNext \/ CallerCancel
 
 Terminated == pcM = "returned"
 
@@ -185,12 +196,18 @@ DepsFirst == \A n \in Visiting : \A d \in Waits(n) : ~Skip(d) => VisitorReturned
 BoundNoErr == (limit > 0 /\ ~cancelled) => Cardinality(Visiting) <= limit
 BoundAlways == limit > 0 => Cardinality(Visiting) <= limit
 ReturnAfterAll == Terminated => \A n \in Nodes : pcW[n] \in {"none", "gone"}
+\* The statement fixes the result for walks the caller does not cancel.  When the caller cancels (ext), the coordinator
+\* leaves with nil, so the call may return nil although services were never started (observed; outside the statement's
+\* quantifier, recorded in DESIGN 11.7): only the error clauses are kept for those walks.
 ResultOK == Terminated =>
-              /\ (ret = "nil") <=> (\A n \in Nodes : ~(n \in fails /\ visits[n] = 1))
-              /\ ret = "err" => egErr \in fails /\ visits[egErr] = 1
-              /\ ret = "nil" => \A n \in Nodes : visits[n] = (IF Skip(n) THEN 0 ELSE 1)
+              /\ (ret = "nil") <=> (egErr = 0)
+              /\ ret = "err" => \/ (egErr \in fails /\ visits[egErr] = 1)          \* the error of a visitor that ran
+                                \/ (ext /\ egErr = CtxErr)                          \* or, when the caller cancelled, the context's
+              /\ ret = "nil" => \A n \in Nodes : ~(n \in fails /\ visits[n] = 1)
+              /\ ~ext => /\ (ret = "nil") <=> (\A n \in Nodes : ~(n \in fails /\ visits[n] = 1))
+                         /\ ret = "nil" => \A n \in Nodes : visits[n] = (IF Skip(n) THEN 0 ELSE 1)
 \* with roots: visited = roots and everything that transitively depends on one
-RootsClosure == (Terminated /\ ret = "nil" /\ after # {}) =>
+RootsClosure == (Terminated /\ ret = "nil" /\ after # {} /\ ~ext) =>
                   {n \in Nodes : visits[n] = 1} = after \cup UNION {Anc(r) : r \in after}
 ChanBounded == Len(chan) <= nn
 NoDeadlock == (ENABLED Next) \/ Terminated
